@@ -10,7 +10,7 @@ fn two(b: &[u8], i: usize) -> u32 {
 const WD: [&[u8; 3]; 7] = [b"Mon", b"Tue", b"Wed", b"Thu", b"Fri", b"Sat", b"Sun"];
 const MON: [&[u8; 3]; 12] = [b"Jan", b"Feb", b"Mar", b"Apr", b"May", b"Jun", b"Jul", b"Aug", b"Sep", b"Oct", b"Nov", b"Dec"];
 
-// @ob tier=quick timeout=2400 mem=14
+// @ob tier=thorough timeout=7200 mem=24
 // @desc RFC 2822 rendering (the real write_rfc2822 through the public Fixed::RFC2822 item): for every date-time with wall-clock year 0..=9999 and whole-minute offset the text is `Www, D Mon YYYY HH:MM:SS +HHMM` (day without leading zero, second 60 for a leap second) with the weekday of the independent reference calendar, month name, and exact offset sign/hours/minutes
 // @bounds wall-clock years 0..=9999, all times incl. leap fraction on second 59, whole-minute offsets in (-24h, 24h); output <= 31 bytes
 // @funcs write_rfc2822 (via Fixed::RFC2822), OffsetFormat::format, write_hundreds, locales::{short_weekdays, short_months}
@@ -58,5 +58,80 @@ fn c11_writer_shape() {
     assert!(b[p] == if mins < 0 { b'-' } else { b'+' } && two(b, p + 1) == a / 60 && two(b, p + 3) == a % 60);
     assert!(buf.len == p + 5);
     kani::cover!(dd < 10 && leap);
+    kani::cover!(mins < 0);
+}
+
+#[cfg(kani)]
+fn render2822(dt: &chrono::DateTime<FixedOffset>) -> Buf<32> {
+    use core::fmt::Write;
+    let items = [Item::Fixed(Fixed::RFC2822)];
+    let mut buf = Buf::<32>::new();
+    assert!(dt.format_with_items(items.iter()).write_to(&mut buf).is_ok() && !buf.overflow);
+    buf
+}
+
+// @ob tier=quick timeout=900 mem=14
+// @desc RFC 2822 writer, date part: for every wall-clock date with year 0..=9999 (time 12:34:56, offset +0000) the text is `Www, D Mon YYYY 12:34:56 +0000` with the weekday of the independent reference calendar, the day without leading zero, the English month abbreviation and the four-digit year
+// @bounds all dates with year 0..=9999; time of day and offset concrete
+// @funcs write_rfc2822 (weekday, day, month, year), locales::{short_weekdays, short_months}
+// @outside time / offset rendering: c11_writer_time_part
+#[kani::proof]
+#[kani::unwind(13)]
+fn c11_writer_date_part() {
+    let d = any_date();
+    let (y, m, dd) = (d.year(), d.month(), d.day());
+    kani::assume(y >= 0 && y <= 9999 && valid_ymd(y, m, dd));
+    let dt = FixedOffset::east_opt(0).unwrap().from_utc_datetime(&d.and_hms_opt(12, 34, 56).unwrap());
+    let buf = render2822(&dt);
+    let b = &buf.b;
+    let wd = WD[weekday_index(y, m, dd) as usize];
+    assert!(b[0] == wd[0] && b[1] == wd[1] && b[2] == wd[2] && b[3] == b',' && b[4] == b' ');
+    let mut p = 5;
+    if dd < 10 {
+        assert!(b[p] == b'0' + dd as u8);
+        p += 1;
+    } else {
+        assert!(two(b, p) == dd);
+        p += 2;
+    }
+    let mn = MON[(m - 1) as usize];
+    assert!(b[p] == b' ' && b[p + 1] == mn[0] && b[p + 2] == mn[1] && b[p + 3] == mn[2] && b[p + 4] == b' ');
+    p += 5;
+    assert!(two(b, p) * 100 + two(b, p + 2) == y as u32 && b[p + 4] == b' ' && b[p + 5] == b'1' && b[p + 6] == b'2');
+    assert!(buf.len == p + 19);
+    kani::cover!(dd < 10);
+    kani::cover!(m == 2 && dd == 29);
+}
+
+// @ob tier=quick timeout=900 mem=14
+// @desc RFC 2822 writer, time / offset part: on the fixed wall-clock date Sun, 8 Jul 2001, for every time of day (second 60 for a leap second) and every whole-minute offset the text ends with HH:MM:SS +HHMM / -HHMM with exact fields
+// @bounds all times of day incl. leap fraction on second 59 x all whole-minute offsets in (-24h, 24h); date concrete
+// @funcs write_rfc2822 (time), OffsetFormat::format
+#[kani::proof]
+#[kani::unwind(13)]
+fn c11_writer_time_part() {
+    let secs: u32 = kani::any();
+    let frac: u32 = kani::any();
+    kani::assume(secs < 86_400 && (frac < 1_000_000_000 || (frac < 2_000_000_000 && secs % 60 == 59)));
+    let t = NaiveTime::from_num_seconds_from_midnight_opt(secs, frac).unwrap();
+    let mins: i32 = kani::any();
+    kani::assume(mins > -1440 && mins < 1440);
+    let off = FixedOffset::east_opt(mins * 60).unwrap();
+    let local = NaiveDate::from_ymd_opt(2001, 7, 8).unwrap().and_time(t);
+    let dt = match off.from_local_datetime(&local) {
+        chrono::offset::LocalResult::Single(x) => x,
+        _ => return,
+    };
+    let buf = render2822(&dt);
+    let b = &buf.b;
+    // "Sun, 8 Jul 2001 " is 16 bytes
+    assert!(b[0] == b'S' && b[1] == b'u' && b[2] == b'n' && b[5] == b'8' && b[7] == b'J' && b[11] == b'2' && b[14] == b'1' && b[15] == b' ');
+    let p = 16;
+    let leap = frac >= 1_000_000_000;
+    assert!(two(b, p) == secs / 3600 && b[p + 2] == b':' && two(b, p + 3) == secs / 60 % 60 && b[p + 5] == b':' && two(b, p + 6) == secs % 60 + if leap { 1 } else { 0 } && b[p + 8] == b' ');
+    let a = if mins < 0 { -mins } else { mins } as u32;
+    assert!(b[p + 9] == if mins < 0 { b'-' } else { b'+' } && two(b, p + 10) == a / 60 && two(b, p + 12) == a % 60);
+    assert!(buf.len == p + 14);
+    kani::cover!(leap);
     kani::cover!(mins < 0);
 }
